@@ -308,6 +308,8 @@ func execPromise(t []string) string {
 		return execJoinPending()
 	case len(t) == 1 && t[0] == "joinchain":
 		return execJoinChain()
+	case len(t) == 2 && t[0] == "joinseq":
+		return execJoinSeq(t[1])
 	case len(t) == 1 && t[0] == "joininflight":
 		return execJoinInflight()
 	case len(t) == 3 && t[0] == "joinrel":
@@ -542,6 +544,137 @@ func execJoinRel(t []string) string {
 	})
 }
 
+// execJoinSeq: "promise joinseq <op,op,...>": n (NewPromise), c<i> (promise i's Answer().Field(0).Client()), j<c>:<p>
+// (c.Join(p.Answer())), f<i> (Fulfill), r<i> (ReleaseClients).  After every op: the op's result (for c: which of the
+// pipelined clients handed out so far it returned, k<index in order of first appearance>, or "res" for the capability
+// found in the result) and, per pipelined client handed out so far, whether it is still valid.
+func execJoinSeq(script string) string {
+	return timed(10*time.Second, func() string {
+		var ps []*capnp.Promise
+		var clients []*capnp.Client
+		var results []*capnp.Message
+		var out []string
+		atoi := func(s string) int { n, _ := strconv.Atoi(s); return n }
+		for _, op := range strings.Split(script, ",") {
+			res := "-"
+			if op == "" {
+				return "bad-op"
+			}
+			switch op[0] {
+			case 'n':
+				ps = append(ps, capnp.NewPromise(capnp.Method{}, &recCaller{}))
+			case 'c':
+				i := atoi(op[1:])
+				if i >= len(ps) {
+					return strings.Join(append(out, op+":invalid"), ";")
+				}
+				cl := ps[i].Answer().Field(0, nil).Client()
+				res = ""
+				for _, m := range results {
+					if len(m.CapTable) > 0 && m.CapTable[0] == cl {
+						res = "res"
+					}
+				}
+				if res == "" {
+					idx := -1
+					for k, c := range clients {
+						if c == cl {
+							idx = k
+						}
+					}
+					if idx < 0 {
+						clients = append(clients, cl)
+						idx = len(clients) - 1
+					}
+					res = "k" + strconv.Itoa(idx)
+				}
+			case 'j':
+				f := strings.Split(op[1:], ":")
+				if len(f) != 2 || atoi(f[0]) >= len(ps) || atoi(f[1]) >= len(ps) {
+					return strings.Join(append(out, op+":invalid"), ";")
+				}
+				ps[atoi(f[0])].Join(ps[atoi(f[1])].Answer())
+			case 'f':
+				i := atoi(op[1:])
+				if i >= len(ps) {
+					return strings.Join(append(out, op+":invalid"), ";")
+				}
+				r, msg := resultWithCaps(&countHook{}, &countHook{})
+				results = append(results, msg)
+				ps[i].Fulfill(r)
+			case 'r':
+				i := atoi(op[1:])
+				if i >= len(ps) {
+					return strings.Join(append(out, op+":invalid"), ";")
+				}
+				ps[i].ReleaseClients()
+			default:
+				return "bad-op"
+			}
+			live := make([]byte, len(clients))
+			for k, c := range clients {
+				live[k] = '0'
+				if c.IsValid() {
+					live[k] = '1'
+				}
+			}
+			out = append(out, op+":"+res+":"+string(live))
+		}
+		return strings.Join(out, ";")
+	})
+}
+
+// joinSeq: a sequence of operations that neither misuses the API nor blocks (the generator mirrors only which promise
+// is unresolved / joined / resolved and where each chain ends)
+func joinSeq(r *lib.Rng, n int) string {
+	var ops []string
+	var root []int
+	var joined, resolved []bool
+	for len(ops) < n {
+		np := len(root)
+		switch t := r.Intn(10); {
+		case np == 0 || (t == 0 && np < 5):
+			ops = append(ops, "n")
+			root = append(root, np)
+			joined = append(joined, false)
+			resolved = append(resolved, false)
+		case t < 4:
+			ops = append(ops, "c"+strconv.Itoa(r.Intn(np)))
+		case t < 6:
+			c, p := r.Intn(np), r.Intn(np)
+			if joined[c] || resolved[c] || root[p] == c {
+				continue
+			}
+			ops = append(ops, "j"+strconv.Itoa(c)+":"+strconv.Itoa(p))
+			l := root[p]
+			if resolved[l] {
+				resolved[c] = true
+			} else {
+				joined[c] = true
+				for x := range root {
+					if root[x] == c {
+						root[x] = l
+					}
+				}
+			}
+		case t < 7:
+			i := r.Intn(np)
+			if joined[i] || resolved[i] {
+				continue
+			}
+			ops = append(ops, "f"+strconv.Itoa(i))
+			resolved[i] = true
+		default:
+			i := r.Intn(np)
+			if !resolved[root[i]] {
+				continue
+			}
+			ops = append(ops, "r"+strconv.Itoa(i))
+		}
+	}
+	return strings.Join(ops, ",")
+}
+
 func genC11(rec *lib.Rec, r *lib.Rng, thorough bool) {
 	if Shard == 0 {
 		rec.Op("S", "promise proxyrace", true)
@@ -571,6 +704,9 @@ func genC11(rec *lib.Rec, r *lib.Rng, thorough bool) {
 			ops[j] = promiseOps[r.Intn(len(promiseOps))]
 		}
 		rec.Op("M", "promise script "+strings.Join(ops, ","), true)
+		if i%2 == 0 {
+			rec.Op("M", "promise joinseq "+joinSeq(r, 4+r.Intn(16)), true)
+		}
 		if i%20 == 0 {
 			rec.Op("S", "promise stress "+strconv.Itoa(r.Intn(1000000))+" "+strconv.Itoa(r.Pick(2, 4, 8))+" "+strconv.Itoa(r.Pick(5, 20, 100)), true)
 			rec.Count("stress")
